@@ -9,6 +9,7 @@ import (
 	"fmt"
 	"os"
 	"path/filepath"
+	"regexp"
 	"sort"
 	"strings"
 	"sync"
@@ -144,6 +145,10 @@ func globMatch(pat, s string) bool {
 	if pat == s {
 		return true
 	}
+	if strings.HasPrefix(pat, "re:") {
+		re, err := regexp.Compile(pat[3:])
+		return err == nil && re.MatchString(s)
+	}
 	if strings.HasSuffix(pat, "*") && strings.HasPrefix(s, strings.TrimSuffix(pat, "*")) {
 		return true
 	}
@@ -174,6 +179,26 @@ func (f *Finding) Matches(v *Violation) bool {
 		}
 	}
 	return true
+}
+
+// BlockedByKnown reports whether a unit cell that does not build is covered by an open C13 finding
+// marked blocks:true (then runtime properties do not re-report it as unit_does_not_build).
+func BlockedByKnown(cell string) bool {
+	fs, err := LoadFindings()
+	if err != nil {
+		return false
+	}
+	for _, f := range fs {
+		if f.Property == "C13" && f.Status == "open" && f.Blocks {
+			v := &Violation{Property: "C13", Cell: cell, Symptom: f.Symptom}
+			g := *f
+			g.Symptom = v.Symptom
+			if g.Matches(v) {
+				return true
+			}
+		}
+	}
+	return false
 }
 
 func LoadFindings() ([]*Finding, error) {
@@ -233,6 +258,11 @@ func (r *Run) Finish() int {
 		v.file = filepath.Join(rdir, hex.EncodeToString(h[:6])+".json")
 		b, _ := json.MarshalIndent(v, "", " ")
 		os.WriteFile(v.file, b, 0o644)
+	}
+	if len(unknown) > 0 {
+		os.MkdirAll(rdir, 0o755)
+		ab, _ := json.MarshalIndent(unknown, "", " ")
+		os.WriteFile(filepath.Join(rdir, "_all.json"), ab, 0o644)
 	}
 	wall := time.Since(r.start).Seconds()
 	cov := map[string]any{
